@@ -26,16 +26,16 @@ FLAGS = [(True, True), (False, True), (True, False), (False, False)]
 
 def make_schema(n, edges):
     """n inputs I1..In, edges = set of (i, j): Ii has a field of type Ij."""
-    parts = ["enum E1 { A B }", "enum E2 { A B }", "enum E3 { A B }", "enum E4 { A B }", "enum E5 { A in }", "enum EUnused { X }", "enum EVar { V W }"]
+    parts = ["enum E1 { A B }", "enum E2 { A B }", "enum E3 { A B }", "enum E4 { A B }", "enum E5 { A in }", "enum EUnused { X }", "enum EVar { V W }", "enum ES { P Q }"]
     for i in range(1, n + 1):
-        fs = ["x: Int", f"e: E{i}" if i <= 2 else "y: String"]
+        fs = ["x: Int", f"e: E{i}" if i <= 2 else "y: String", "es: ES"]   # ES is shared by every input, retained or pruned
         for (a, b) in sorted(edges):
             if a == i:
                 fs.append(f"to{b}: I{b}")
         if i == n:
             fs.append("elist: [E4!]")
         parts.append(f"input I{i} {{ {' '.join(fs)} }}")
-    parts.append("input IUnused { z: Int eu: EUnused inner: IUnusedInner }")
+    parts.append("input IUnused { z: Int eu: EUnused inner: IUnusedInner es: ES }")
     parts.append("input IUnusedInner { w: Int back: IUnused }")
     parts.append("type RN { e3: E3 v: Int }")
     parts.append("type R { id: ID e5: E5 nested: RN }")
